@@ -144,7 +144,7 @@ class Deadlock(Exception):
 TRACED = ("/conductor/execution/", "/conductor/utils/sigchld.py", "/conductor/task_types/run.py")
 
 
-def run_with_injection(m, ctx, tid, case, obs, inject, inj_state, inflight, pid_task, kills, trace, vanished):
+def run_with_injection(m, ctx, tid, case, obs, inject, inj_state, inflight, pid_task, kills, trace, vanished, close_pipes=lambda pid: None):
     import signal as _signal
     from conductor.errors.signal import register_signal_handlers
 
@@ -164,7 +164,14 @@ def run_with_injection(m, ctx, tid, case, obs, inject, inj_state, inflight, pid_
                 if inject.get("vanish_first") and len(inflight) >= 2:
                     # the first registered process has just exited and been reaped (its exit and the interrupt arrive together)
                     vanished.add(inflight[0])
+                    close_pipes(inflight[0])
                     inj_state["fired"]["vanished"] = [pid_task[inflight[0]]]
+                if inject.get("vanish_last") and inflight and frame.f_code.co_name == "start_execution":
+                    # the process that was just spawned is short-lived: it has already exited and been reaped by the SIGCHLD
+                    # handler when the interrupt is handled inside start_execution
+                    vanished.add(inflight[-1])
+                    close_pipes(inflight[-1])         # a process that has exited has closed its ends of the pipes
+                    inj_state["fired"]["vanished"] = inj_state["fired"]["vanished"] + [pid_task[inflight[-1]]]
                 _signal.raise_signal(sig)
         return local
 
@@ -470,7 +477,7 @@ def run_impl(case, keep_root=False, inject=None):
             except errors.ConductorError as ex:
                 obs.load = ("bad", last_loading[0], type(ex).__name__)
             if obs.load[0] == "ok" and inject is not None:
-                run_with_injection(m, ctx, tid, case, obs, inject, inj_state, inflight, pid_task, kills, trace, vanished)
+                run_with_injection(m, ctx, tid, case, obs, inject, inj_state, inflight, pid_task, kills, trace, vanished, close_pipes)
             elif obs.load[0] == "ok":
                 plan = m["Planner"](ctx).create_plan_for(tid, run_again=case.again)
                 tk = lambda op: task_of_ident(op.main_task.identifier)  # noqa: E731
